@@ -590,10 +590,10 @@ class History:
     def op_set_config(self, op):
         o = R.ALL_OPTIONS[op["opt"] % len(R.ALL_OPTIONS)]
         before = self.lineage_snapshot()
-        cfg_before = json.dumps({k: R.loose(v) for k, v in self.state["config"].items()}, sort_keys=True)
+        cfg_before = json.dumps({k: R.hashlike(v) for k, v in self.state["config"].items()}, sort_keys=True)
         R.do_set_config(self.state, [(o, op["val"])], op["mode"])
         self.ctx.set_config({o: R.build(op["val"])}, mode=op["mode"])
-        if cfg_before != json.dumps({k: R.loose(v) for k, v in self.state["config"].items()}, sort_keys=True):
+        if cfg_before != json.dumps({k: R.hashlike(v) for k, v in self.state["config"].items()}, sort_keys=True):
             self.stale.clear()  # the context hash changed: cached plugins are dropped
         changed = self.note_change(before)
         if changed:
@@ -618,16 +618,18 @@ class History:
         R.do_register(trial, spec)
         after = R.all_keys_canon(trial, R.loose)
         affected = {t for t in after if before.get(t) != after[t]}
+        before_s, after_s = R.all_keys_canon(state, R.strict), R.all_keys_canon(trial, R.strict)
+        affected_s = {t for t in after_s if before_s.get(t) != after_s[t]}  # (a default 1 -> 1.0 counts as well)
         deps_changed = old is not None and old["deps"] != spec["deps"]
         same_hash = old is not None and (old["version"], old["comp"]) == (spec["version"], spec["comp"])
-        f4 = op["via"] == "inplace" and same_hash and (affected or deps_changed)
+        f4 = op["via"] == "inplace" and same_hash and bool(affected_s or deps_changed)
         if f4:
             # recorded finding F4: the plugin cache is not invalidated by this registration
             if self.steer:  # register through new_context instead (no warm cache), count the history as excluded
                 self.steered.add("F4")
                 op = dict(op, via="new_context")
             else:
-                affected = affected | {u for g in (state, trial) for u in R.registered_types(g)
+                affected = affected | affected_s | {u for g in (state, trial) for u in R.registered_types(g)
                                        if slot in R.ancestors_slots(g, R.SLOT_OF[u])}
                 self.stale.setdefault("F4", set()).update(affected)
         elif op["via"] == "inplace" and not same_hash:
@@ -1027,9 +1029,9 @@ def _sig_f0230(sub, desc, bucket, message):
 
 
 SUBCHECKS = [
-    SubCheck("history", run_history, strategy=st_history, quick=400, thorough=12000, min_per_shard=5,
+    SubCheck("history", run_history, strategy=st_history, quick=320, thorough=12000, min_per_shard=5,
              sample_cap=6000, required_classes=("reused_stored_data", "is_stored_by_fuzzy_match")),
-    SubCheck("keys", run_keys, strategy=st_keys, quick=3000, thorough=60000,
+    SubCheck("keys", run_keys, strategy=st_keys, quick=2400, thorough=60000,
              required_classes=("changes_some_not_all",)),
     SubCheck("xproc", run_xproc, enumerate=enum_xproc, sample_cap=4000),
 ]
